@@ -7,7 +7,7 @@ OPS = ['prune_graft', 'tokens_prune', 'pop_link', 'split', 'append_child', 'new_
 META = dict(
     functions=['token.c: token_new, token_copy, token_new_parent, token_chain_append, token_append_child, token_remove_first_child, '
                'token_remove_last_child, token_remove_tail, fix_token_chain_tail, token_pop_link_from_chain, tokens_prune, token_prune_graft, '
-               'token_split, token_free, token_tree_free (pool disabled: real malloc/free)'],
+               'token_split, token_free, token_tree_free (pool disabled: real malloc/free)', 'mmd.c: deindent_line, strip_quote_markers_from_line, prune_first_child_from_line'],
     stubs=[],
     assumptions=['pre-state: ANY sibling chain of <= K tokens (optionally with 2-token child chains and one mated pair) satisfying INV = '
                  '{doubly linked, head.prev==NULL, starts non-decreasing, spans inside parent/source, mates symmetric, head.tail==last}',
@@ -49,6 +49,12 @@ def harnesses(tier):
                        units=['repo:token.c', 'repo:char.c'], unwind=K + 6, unwindset=['token_free:4', 'token_tree_free:4'], timeout=600, mem_gb=4,
                        bounds='chain of <= %d tokens, spans <= 4 bytes, one level of children, one mated pair' % K,
                        desc='token.c %s from an arbitrary chain satisfying INV; INV re-established, no freed object reachable' % op))
+    for op, nm in enumerate(['deindent_line', 'strip_quote_markers_from_line']):
+        hs.append(dict(name='c15_line_' + nm, src='c15/lines.c', defs=dict(OP=op, K=3), pool_off=True,
+                       units=['repo:mmd.c', 'repo:token.c', 'repo:object_pool.c', 'repo:stack.c', 'repo:char.c'],
+                       unwind=15, unwindset=['token_free:4', 'token_tree_free:4'], timeout=900, mem_gb=6, slice=True,
+                       bounds='line with 1..3 child tokens of 6 kinds, lengths 1..4, 12 arbitrary source bytes',
+                       desc='mmd.c %s: children stay a well-formed chain inside the line, no freed token reachable' % nm))
     hs.append(dict(name='c15_enum', src='c15/enum.c', prepare=gen_enum_list, timeout=600, mem_gb=4,
                    desc='published enum ranges vs kMaxTokenTypes / parser.h / arithmetic runs'))
     LXN = 2 if tier == 'quick' else 3
